@@ -24,7 +24,7 @@ from ..kernel import Discard, EventLog, InjectedFault, Streams, Violation, close
 PROP = "C10"
 
 EVIDENCE = {
-    "probes_expected": ["condensed-vs-explicit-compared", "restart-dropped-state", "recreated-body-compared", "uniform-knob-compared", "uniform-knob-assembly-compared", "planestrain-slab-compared", "axisymmetric-energy-compared", "fault:solver_inexact", "distorted-mesh"],
+    "probes_expected": ["condensed-vs-explicit-compared", "restart-dropped-state", "recreated-body-compared", "unrelated-dual-field-created-before", "uniform-knob-compared", "uniform-knob-assembly-compared", "planestrain-slab-compared", "axisymmetric-energy-compared", "fault:solver_inexact", "distorted-mesh"],
     "clauses_sampled_only": [
         "plane strain vs unit-thickness slab (in-plane forces and stiffness) is a pure function of the state; evaluated at the converged states the histories reach",
         "axisymmetric nodal forces = derivative of the 2 pi R weighted strain energy: pure; evaluated by central differences of the energy at the reached states. Convergence of the axisymmetric model to a revolved 3D model is not attempted",
@@ -42,6 +42,10 @@ def generate(seed, tier, k):
         dim = r.choice([2, 3])
         mesh = gen.gen_mesh(r, dim=dim, allow=("linear", "linear", "quadratic"), max_cells=8 if dim == 2 else 4)
         fkind = "Field" if dim == 3 else r.choice(["PlaneStrain", "Axi"])
+        if dim == 2 and r.random() < 0.3:
+            # unstructured-like mesh: several cells start at the same point
+            mesh = {"gen": "Circle", "n": [r.choice([2, 3])], "radius": 1.0, "a": [-1.0, -1.0], "b": [2.0, 2.0]}
+            fkind = "PlaneStrain"
         bulk = round(mu * r.choice([5.0, 20.0, 100.0, 1000.0, 5000.0]), 3)
         doc["items"] = [{"type": "SolidBodyNearlyIncompressible", "umat": {"name": "NeoHooke", "p": {"mu": mu}}, "bulk": bulk}]
     elif mode == "uniform":
@@ -66,12 +70,16 @@ def generate(seed, tier, k):
     doc["mesh"] = mesh
     doc["field"] = {"kind": fkind}
     case = r.choice(["uniaxial", "uniaxial", "shear", "custom"]) if fkind != "Axi" else r.choice(["uniaxial", "custom"])
+    if mesh["gen"] == "Circle":
+        case = "circle"
     bc = {"case": case}
     if case == "uniaxial":
         bc["clamped"] = r.random() < 0.7
         bc["sym"] = True
     if case == "custom":
         bc["list"] = [{"name": "fix", "fx": "min", "value": 0.0}, {"name": "move", "fx": "max", "skip": [False] + [r.random() < 0.5 for _ in range(dim - 1)], "value": 0.0, "ramped": True}]
+    if case == "circle":
+        bc = {"case": "custom", "list": [{"name": "fix", "fx": "min", "value": 0.0}, {"name": "move", "fx": "max", "skip": [False, False], "value": 0.0, "ramped": True}]}
     doc["bc"] = bc
     n = r.choice([1, 2, 3, 4])
     top = r.choice([-0.15, 0.1, 0.2, 0.3]) * mesh["b"][0]
@@ -83,7 +91,7 @@ def generate(seed, tier, k):
     doc["faults"] = []
     if mode == "condensed" and r.random() < 0.3:
         doc["faults"].append({"kind": "solver_inexact", "rel": r.choice([1e-10, 1e-6, 1e-4]), "seed": r.randrange(1000)})
-    doc["c10"] = {"mode": mode, "restart": mode == "condensed" and r.random() < 0.4, "probe_seed": r.randrange(1 << 30)}
+    doc["c10"] = {"mode": mode, "restart": mode == "condensed" and r.random() < 0.4, "probe_seed": r.randrange(1 << 30), "unrelated_dual": r.choice([None, None, False, True])}
     return doc
 
 
@@ -120,6 +128,12 @@ def run_condensed(doc, log):
         d2["field"]["axisymmetric"] = True
     d2["faults"] = []
     log2 = EventLog()
+    ud = doc["c10"].get("unrelated_dual")
+    if ud is not None:
+        # an unrelated dual field with an explicit option, created earlier in the same process,
+        # must not influence the mixed fields created afterwards
+        fem.FieldDual(w.region, disconnect=ud)
+        log.count("unrelated-dual-field-created-before")
     w2, eng2, exc2 = run_history(d2, log2)
     if exc2 is not None:
         if isinstance(exc2, ValueError):
@@ -355,7 +369,7 @@ def run_axi(doc, log):
 def run(doc, log):
     mode = doc["c10"]["mode"]
     eng = {"condensed": run_condensed, "uniform": run_uniform, "planestrain": run_planestrain, "axi": run_axi}[mode](doc, log)
-    sig = "|".join([mode, doc["mesh"]["gen"] + str(doc["mesh"]["n"]), str(doc["mesh"].get("convert")), doc["field"]["kind"], doc["items"][0]["type"] + ":" + doc["items"][0]["umat"]["name"], doc["bc"]["case"], str(len(doc["steps"][0]["ramp"][0]["values"])), str(doc["items"][0].get("bulk")), "inexact" if eng.fired else ""])
+    sig = "|".join([mode, doc["mesh"]["gen"] + str(doc["mesh"]["n"]) + str(doc["c10"].get("unrelated_dual")), str(doc["mesh"].get("convert")), doc["field"]["kind"], doc["items"][0]["type"] + ":" + doc["items"][0]["umat"]["name"], doc["bc"]["case"], str(len(doc["steps"][0]["ramp"][0]["values"])), str(doc["items"][0].get("bulk")), "inexact" if eng.fired else ""])
     return {
         "signature": sig,
         "nontrivial": len(eng.callbacks) >= 1,
